@@ -5,12 +5,20 @@ use rs_opw_kinematics::collisions::{CheckMode, SafetyDistances, NEVER_COLLIDES};
 use rs_opw_kinematics::kinematic_traits::Joints;
 use std::collections::BTreeSet;
 
+/// independent reading of the safety table: a special entry in either key order, else the environment / robot default
+pub fn ref_min_distance(s: &SafetyDistances, a: u16, b: u16) -> f32 {
+    for ((x, y), v) in s.special_distances.iter() {
+        if (*x == a && *y == b) || (*x == b && *y == a) { return *v; }
+    }
+    if a as usize >= rs_opw_kinematics::kinematic_traits::ENV_START_IDX || b as usize >= rs_opw_kinematics::kinematic_traits::ENV_START_IDX { s.to_environment } else { s.to_robot_default }
+}
+
 pub fn brute(s: &Scene, safety: &SafetyDistances, q: &Joints, margin: f32) -> (BTreeSet<(usize, usize)>, BTreeSet<(usize, usize)>, Vec<String>) {
     // returns (definitely colliding, undecided, table rows)
     let links = links_f32(s, q);
     let mut hit = BTreeSet::new(); let mut und = BTreeSet::new(); let mut rows = Vec::new();
     for (a, b) in relevant_pairs(s) {
-        let r = *safety.min_distance(a as u16, b as u16);
+        let r = ref_min_distance(safety, a as u16, b as u16);
         let (it, d) = pair_geometry(s, a, b, &links);
         rows.push(format!("[{},{},{},{},{}]", a, b, it, fx(d as f64), fx(r as f64)));
         if r <= NEVER_COLLIDES { continue; }
